@@ -39,6 +39,7 @@ type ev struct {
 type walker struct {
 	fset      *token.FileSet
 	tracked   map[string]bool // field names that have a <name>Mu sibling
+	plain     map[string]bool // other struct fields that some method assigns after construction
 	syncMaps  map[string]bool // field names of type sync.Map
 	declared  map[string]bool // functions / methods declared in the two files
 	events    []ev
@@ -298,6 +299,10 @@ func (w *walker) expr(e ast.Expr) {
 			w.emitH("read", p)
 			return
 		}
+		if w.plain[v.Sel.Name] && path(v) != "" {
+			w.emitH("plainRead", path(v))
+			return
+		}
 		switch v.Sel.Name {
 		case "Unlock", "RUnlock", "Lock", "RLock":
 			w.emit("methodValue", path(v))
@@ -436,6 +441,10 @@ func (w *walker) stmt(s ast.Stmt) {
 				continue
 			}
 			if sel, ok := l.(*ast.SelectorExpr); ok {
+				if w.plain[sel.Sel.Name] && path(sel) != "" {
+					w.emitH("plainWrite", path(sel))
+					continue
+				}
 				w.expr(sel.X)
 			}
 		}
@@ -624,7 +633,8 @@ func main() {
 		}
 		parsed = append(parsed, af)
 	}
-	w := &walker{fset: fset, tracked: map[string]bool{}, syncMaps: map[string]bool{}, declared: map[string]bool{}}
+	w := &walker{fset: fset, tracked: map[string]bool{}, plain: map[string]bool{}, syncMaps: map[string]bool{}, declared: map[string]bool{}}
+	fieldNames := map[string]bool{}
 	structs := map[string]bool{"scope": true, "provider": true}
 	for _, af := range parsed {
 		for _, d := range af.Decls {
@@ -651,6 +661,7 @@ func main() {
 						}
 					}
 					for n := range names {
+						fieldNames[n] = true
 						if names[n+"Mu"] {
 							w.tracked[n] = true
 						}
@@ -659,6 +670,28 @@ func main() {
 			case *ast.FuncDecl:
 				w.declared[v.Name.Name] = true
 			}
+		}
+	}
+
+	// struct fields that a method (not the constructor newScope) assigns: plain, unguarded state
+	for _, af := range parsed {
+		for _, d := range af.Decls {
+			fd, ok := d.(*ast.FuncDecl)
+			if !ok || fd.Body == nil || fd.Recv == nil {
+				continue
+			}
+			ast.Inspect(fd.Body, func(n ast.Node) bool {
+				as, ok := n.(*ast.AssignStmt)
+				if !ok {
+					return true
+				}
+				for _, l := range as.Lhs {
+					if sel, ok := l.(*ast.SelectorExpr); ok && fieldNames[sel.Sel.Name] && !w.tracked[sel.Sel.Name] && !strings.HasSuffix(sel.Sel.Name, "Mu") {
+						w.plain[sel.Sel.Name] = true
+					}
+				}
+				return true
+			})
 		}
 	}
 
